@@ -401,6 +401,107 @@ def mode_random(out: str) -> None:
     print(json.dumps({'records': w.n}))
 
 
+# ------------------------------------------------------------------ long repetitive inputs
+# (prefix, unit, suffix, options that must hold for the unit to mean something, options to vary)
+LONG_UNITS = [
+    ('', '/**/', '', {'star': True}, ['keep']),
+    ('', '/* x */', '', {'star': True}, ['keep']),
+    ('', '/* x */ ', '', {'star': True}, ['keep']),
+    ('', '/*\n*/', '', {'star': True}, ['keep']),
+    ('', '//c\n', '', {}, ['keep']),
+    ('', '\n', '', {}, []),
+    ('', '\r\n', '', {}, []),
+    ('', ' ', '', {}, []),
+    ('', '\t', '', {}, []),
+    ('', '{', '', {}, []),
+    ('', '}', '', {}, []),
+    ('', '"a"', '', {}, ['esc']),
+    ('', 'a ', '', {}, []),
+    ('', 'a', '', {}, []),
+    ('', '[f]', '', {}, ['sb']),
+    ('', '(p)', '', {}, ['sp']),
+    ('', '+', '', {}, ['plus']),
+    ('', '=', '', {}, []),
+    ('', ',', '', {}, []),
+    ('', ':', '', {}, ['colon']),
+    ('', '#', '', {}, []),
+    ('', '#d ', '', {}, []),
+    ('', '\ufeff', '', {}, []),
+    ('"', '\\\n', '"', {'esc': True}, []),
+    ('"', '\\n', '"', {}, ['esc']),
+    ('"', '\r\n', '"', {}, []),
+    ('(', '\n', ')', {'sp': True}, []),
+    ('[', 'x', ']', {'sb': True}, []),
+    ('/*', '*', '*/', {'star': True}, ['keep']),
+    ('/*', '* ', '*/', {'star': True}, ['keep']),
+    ('//', '/', '\n', {}, ['keep']),
+]
+LONG_PAIR_UNITS = ['/**/', '/* x */', '//c\n', '\n', ' ', '{', '"a"', 'a', '[f]', '(p)', '+', ',']
+
+
+def long_cases(reps: list):
+    for pre, unit, suf, need, vary in LONG_UNITS:
+        for rep in reps:
+            for bits in range(1 << len(vary)):
+                o = dict(toklib.TOK_DEFAULTS, **need)
+                for i, nm in enumerate(vary):
+                    o[nm] = bool(bits >> i & 1)
+                yield pre, unit, suf, rep, o
+    for a in LONG_PAIR_UNITS:
+        for b in LONG_PAIR_UNITS:
+            if a == b:
+                continue
+            for keep in (False, True):
+                o = dict(toklib.AllTrueOpts, keep=keep)
+                yield '', a + b, '', reps[0], o
+
+
+def long_record(pre: str, unit: str, suf: str, rep: int, o: dict, limit_s: float) -> dict:
+    """One long repetitive text under three delivery forms.  Only a digest of each observation is
+    logged (the token list itself is too long to be worth shipping); TLC compares the digests of the
+    delivery forms with each other and judges exception type and number of cursor reads."""
+    import hashlib
+    import time
+    text = pre + unit * rep + suf
+    forms = [('str', lambda: text), ('lines', lambda: text.splitlines(keepends=True)), ('chars', lambda: list(text))]
+    groups: dict = {}
+    toklib.WATCHDOG_S = limit_s
+    slowest = 0.0
+    for name, make in forms:
+        toklib._watchdog_hits[0] = 0
+        t0 = time.perf_counter()
+        out = toklib.tokenize(make(), o, nchars=len(text))
+        slowest = max(slowest, time.perf_counter() - t0)
+        dig = {'err': out['err'], 'etype': out['etype'], 'msg': out['msg'][:120], 'n': out['n'], 'ntoks': len(out['toks']),
+               'digest': hashlib.sha1(json.dumps(out['toks'], separators=(',', ':')).encode()).hexdigest(),
+               'tail': out['toks'][-4:]}
+        key = json.dumps(dig, sort_keys=True)
+        if key not in groups:
+            groups[key] = dict(dig, forms=[])
+        groups[key]['forms'].append(name)
+    return {'k': 'long', 'pre': cps(pre), 'unit': cps(unit), 'suf': cps(suf), 'rep': rep, 'nchars': len(text), 'o': o,
+            'etype': ETYPE, 'limit_s': limit_s, 'slowest_ms': int(slowest * 1000), 'outs': list(groups.values()),
+            'sig': {'kind': 'long', 'action': 'tokenize', 'unit': pre + '|' + unit + '|' + suf, 'rep': rep,
+                    'o': ''.join(str(int(o[n])) for n in toklib.OPT_NAMES)}}
+
+
+def mode_long(out: str) -> None:
+    """Totality on long repetitive inputs: every unit (and pairwise alternations) repeated 2000 times
+    (thorough: also 20000), as one str / per line / per character."""
+    thorough = hlib.tier() == 'thorough'
+    w = hlib.RecWriter(out)
+    slow = 0
+    for pre, unit, suf, rep, o in long_cases([2000, 20000] if thorough else [2000]):
+        rec = long_record(pre, unit, suf, rep, o, 20.0 if rep <= 2000 else 120.0)
+        w.write(rec)
+        if any(g['etype'] == 'Watchdog' for g in rec['outs']):
+            slow += 1
+            if slow >= 3:       # enough evidence of a blow-up; do not burn the budget
+                break
+    w.close()
+    print(json.dumps({'records': w.n, 'timeouts': slow}))
+
+
 # ------------------------------------------------------------------ caller operations
 PUSHABLE = ['STRING', 'NEWLINE', 'BRACE_OPEN', 'PROP_FLAG', 'EOF', 'COMMA', 'DIRECTIVE']
 EXPECTABLE = ['STRING', 'NEWLINE', 'BRACE_OPEN', 'BRACE_CLOSE', 'EOF', 'PROP_FLAG']
@@ -677,12 +778,16 @@ def mode_replay(path: str, out: str) -> None:
     r = rep['record']
     rng = random.Random(0)
     w = hlib.RecWriter(out)
-    text = uncps(r['text'])
+    text = uncps(r.get('text', []))
     if r['k'] == 'lex':
         forms = small_forms(text) if len(text) <= 6 else big_forms(text, rng)
         w.write(lex_record(text, r['o'], forms, rep.get('kind', 'replay')))
     elif r['k'] == 'steps':
         w.write(steps_record(text, r['o'], r['edge'] if r['edge']['k'] else None, rep.get('kind', 'replay')))
+    elif r['k'] == 'long':
+        w.write(long_record(uncps(r['pre']), uncps(r['unit']), uncps(r['suf']), r['rep'], r['o'], r['limit_s']))
+        w.close()
+        return
     elif r['k'] == 'calls':
         w.write(calls_record(text, r['o'], r['script'], rep.get('kind', 'replay')))
     elif r['k'] == 'kv':
@@ -709,4 +814,4 @@ if __name__ == '__main__':
     warnings.simplefilter('ignore')
     mode = sys.argv[1]
     {'family': mode_family, 'all128': mode_all128, 'edges': mode_edges, 'cursor': mode_cursor, 'random': mode_random,
-     'kvsoup': mode_kvsoup, 'calls': mode_calls, 'replay': mode_replay}[mode](*sys.argv[2:])
+     'kvsoup': mode_kvsoup, 'calls': mode_calls, 'long': mode_long, 'replay': mode_replay}[mode](*sys.argv[2:])
